@@ -6,6 +6,7 @@ import Kopf.Lemmas.C12_Request
 import Kopf.Lemmas.C12_Throttle
 import Kopf.Lemmas.C12_Vault
 import Kopf.Lemmas.C12_Process
+import Kopf.Lemmas.C12_Patch
 namespace Kopf.C12
 
 /-! ## The retry loop of `api.request` — for every fault script, every backoff stream -/
@@ -884,6 +885,159 @@ example : ((processCycles (ofList [1024]) false (Delays.ofList [4096, 8192]) Thr
      (30000, [⟨.http ⟨410, .absent, .statusJson, none, false⟩, 16⟩], none, none)]).map (·.out.activated))
     = [some 4096, some 8192, none, some 4096] := by decide
 example : AfterErrors [4096, 8192] 1 ⟨some 1, some 4096, none⟩ := by simp [AfterErrors]
+
+/-! ## `patching.patch_obj` between the API client and the throttler — which escalations pause the object
+
+The cycle's API work is not one call but one `patch_obj`: up to four `api.patch` calls (merge-patch of the
+object, of its /status, JSON-patch of the object, of its /status) and an error filter of its own. The property's
+"other 4xx escalate at once … an escalated error pauses that object" has to survive that filter: it may keep
+back ONLY 'the object is gone' (404) and a failed resourceVersion `test` of a JSON-patch (422 there). -/
+
+/-- An escalated API error of ANY of the cycle's calls pauses the object — unless it is a 404, or a 422 answered
+    to a JSON-patch: after `p` consecutive failed cycles, a cycle whose first unanswered call (of kind `k`)
+    escalates as `c` at time `f` activates `l[min p last]`, counted from `f`; the later calls are not made;
+    nothing reaches the worker; the throttler is then `AfterErrors l (p + 1)`. -/
+theorem patch_escalation_pauses_object (bo : Backoffs) (enforce : Bool) (l : List Int) (p : Nat) (s : Throttler)
+    (t : Int) (calls : List (PKind × List Att)) (w1 : Option Nat) (k : PKind) (c : ErrClass) (f : Int)
+    (h : AfterErrors l p s) (hf : FirstFailure bo enforce calls t k c f)
+    (h404 : c ≠ .notFound) (h422 : ¬ (c = .unprocessable ∧ k.isJson = true)) :
+    let po := processCycleP patchCatch bo enforce (Delays.ofList l) s t calls w1 none
+    po.run = some (patchObj patchCatch bo enforce calls t) ∧
+    (patchObj patchCatch bo enforce calls t).ending = .raised c ∧
+    po.out.activated = l[min p (l.length - 1)]? ∧
+    po.out.fin = f + (match l[min p (l.length - 1)]? with | some d => pauseLen d | none => 0) ∧
+    po.out.escaped = .none_ ∧ AfterErrors l (p + 1) po.out.st := by
+  intro po
+  have hd := first_failure_decides patchCatch bo enforce calls t k c f hf
+  have hr : patchCatch k c = .raised c := (patchCatch_raised_iff k c).mpr ⟨h404, h422⟩
+  have hpo : po = ⟨some (patchObj patchCatch bo enforce calls t),
+      cycle (Delays.ofList l) s t (patchCycleIn patchCatch bo enforce calls t w1 none)⟩ :=
+    processCycleP_inactive patchCatch bo enforce (Delays.ofList l) s t calls w1 none h.1
+  have hin : patchCycleIn patchCatch bo enforce calls t w1 none =
+      ⟨.error true, false, (patchCycleIn patchCatch bo enforce calls t w1 none).dur, w1, none⟩ := by
+    simp [patchCycleIn, hd.1, hr, patchBody]
+  have hst := error_step l p s t false (patchCycleIn patchCatch bo enforce calls t w1 none).dur w1 h
+  rw [← hin] at hst
+  have hdur := patchCycleIn_dur patchCatch bo enforce calls t w1 none
+  rw [hd.2] at hdur
+  rw [hpo]
+  refine ⟨rfl, by rw [hd.1, hr], hst.1, ?_, hst.2.2.2.1, hst.2.1⟩
+  have h1 := hst.2.2.2.2.2
+  have h2 := hst.2.2.2.2.1
+  rw [h2] at h1
+  show (cycle (Delays.ofList l) s t (patchCycleIn patchCatch bo enforce calls t w1 none)).fin = _
+  cases hl : l[min p (l.length - 1)]? with
+  | none => simp only [hl] at h1 ⊢; omega
+  | some d0 => simp only [hl] at h1 ⊢; omega
+
+/-- 'other 4xx escalate at once' through `patch_obj`: an answer that the retry loop raises at once
+    (`verdict = raise c`: every 4xx but 403/429 — HTTP 422 included) to the first attempt of a MERGE-patch call
+    (of the object or of its /status), the calls before it answered, is ONE attempt, and pauses the object. -/
+theorem merge_patch_4xx_pauses_object (bo : Backoffs) (enforce : Bool) (l : List Int) (p : Nat) (s : Throttler)
+    (t : Int) (pre post : List (PKind × List Att)) (k : PKind) (a : Att) (more : List Att) (w1 : Option Nat)
+    (c : ErrClass) (h : AfterErrors l p s)
+    (hpre : (patchObj patchCatch bo enforce pre t).ending = .applied)
+    (hk : k.isJson = false) (hv : verdict a.fault = .raise c) (h404 : c ≠ .notFound) :
+    let t1 := (patchObj patchCatch bo enforce pre t).fin
+    let po := processCycleP patchCatch bo enforce (Delays.ofList l) s t (pre ++ (k, a :: more) :: post) w1 none
+    (request bo enforce (a :: more) t1).times = [t1] ∧
+    po.out.activated = l[min p (l.length - 1)]? ∧
+    po.out.fin = t1 + a.lat + (match l[min p (l.length - 1)]? with | some d => pauseLen d | none => 0) ∧
+    po.out.escaped = .none_ ∧ AfterErrors l (p + 1) po.out.st := by
+  intro t1 po
+  have hreq : request bo enforce (a :: more) t1 = ⟨[t1], [], .escalated c, t1 + a.lat⟩ := by
+    simp [request, run_cons, hv]
+  -- the calls before it are answered: the first failure is this call
+  have hff : ∀ (pre : List (PKind × List Att)) (t : Int),
+      (patchObj patchCatch bo enforce pre t).ending = .applied →
+      FirstFailure bo enforce (pre ++ (k, a :: more) :: post) t k c
+        ((patchObj patchCatch bo enforce pre t).fin + a.lat) := by
+    intro pre
+    induction pre with
+    | nil =>
+      intro t _
+      have hr : request bo enforce (a :: more) t = ⟨[t], [], .escalated c, t + a.lat⟩ := by
+        simp [request, run_cons, hv]
+      have := FirstFailure.here (bo := bo) (enforce := enforce) k (a :: more) post t c (by rw [hr])
+      rw [hr] at this
+      simpa [patchObj] using this
+    | cons kc rest ih =>
+      intro t hap
+      obtain ⟨k0, script⟩ := kc
+      cases ho : (request bo enforce script t).outcome with
+      | ok =>
+        rw [patchObj_cons_ok patchCatch bo enforce k0 script rest t ho] at hap ⊢
+        exact .later k0 script _ t k c _ ho (ih _ hap)
+      | escalated c0 =>
+        rw [patchObj_cons_escalated patchCatch bo enforce k0 script rest t c0 ho] at hap
+        -- the filter never turns an escalation into `applied`
+        exfalso
+        simp only [patchCatch] at hap
+        split at hap
+        · cases hap
+        · split at hap <;> cases hap
+  have h422 : ¬ (c = .unprocessable ∧ k.isJson = true) := by simp [hk]
+  have := patch_escalation_pauses_object bo enforce l p s t (pre ++ (k, a :: more) :: post) w1 k c _ h
+    (hff pre t hpre) h404 h422
+  exact ⟨by rw [hreq], this.2.2.1, this.2.2.2.1, this.2.2.2.2.1, this.2.2.2.2.2⟩
+
+/-- … whereas the two answers the filter keeps back are no errors of the object: a 404 of any call ('gone') and
+    a 422 of a JSON-patch call (newer changes exist: the patch is carried over) end the cycle like a success —
+    no pause, and the growth of the delays is reset. -/
+theorem gone_or_conflict_is_no_error (bo : Backoffs) (enforce : Bool) (cfg : Delays) (s : Throttler)
+    (t : Int) (calls : List (PKind × List Att)) (w1 w2 : Option Nat) (k : PKind) (c : ErrClass) (f : Int)
+    (h : s.activeUntil = none) (hf : FirstFailure bo enforce calls t k c f)
+    (hc : c = .notFound ∨ (c = .unprocessable ∧ k.isJson = true)) :
+    let po := processCycleP patchCatch bo enforce cfg s t calls w1 w2
+    po.out.activated = none ∧ po.out.escaped = .none_ ∧ po.out.st = Throttler.fresh := by
+  intro po
+  have hd := first_failure_decides patchCatch bo enforce calls t k c f hf
+  have hb : (patchCycleIn patchCatch bo enforce calls t w1 w2).body = .success := by
+    simp only [patchCycleIn, hd.1]
+    rcases hc with rfl | ⟨rfl, hk⟩
+    · simp [patchCatch, patchBody]
+    · simp [patchCatch, hk, patchBody]
+  have hpo : po = ⟨some (patchObj patchCatch bo enforce calls t),
+      cycle cfg s t (patchCycleIn patchCatch bo enforce calls t w1 w2)⟩ :=
+    processCycleP_inactive patchCatch bo enforce cfg s t calls w1 w2 h
+  have hsr : (cycle cfg s t (patchCycleIn patchCatch bo enforce calls t w1 w2)).shouldRun = true := by
+    rw [(cycle_shouldRun cfg s t _).1]
+    show (phase1 s t w1).2.activeUntil.isNone = true
+    rw [phase1_inactive s t w1 h]; simp [h]
+  have := success_resets cfg s t (patchCycleIn patchCatch bo enforce calls t w1 w2) hb hsr
+  rw [hpo]
+  exact ⟨this.2.2, this.2.1, this.1⟩
+
+/-- The filter must look at the KIND of the call. With one `except APIUnprocessableEntityError` around all four
+    calls (`patchCatchAny422`) the property fails: an HTTP 422 answered to the merge-patch of the object — an
+    'other 4xx', escalated at once by the API client — does not pause the object at all (4 s configured), the
+    throttler is as new; the real filter pauses it (`merge_patch_4xx_pauses_object`). -/
+theorem any_422_swallowed_witness :
+    let calls : List (PKind × List Att) := [(.mergeBody, [⟨.http ⟨422, .absent, .statusJson, none, false⟩, 16⟩])]
+    (processCycleP patchCatchAny422 (ofList [1024]) false (Delays.ofList [4096, 8192]) Throttler.fresh 0
+        calls none none).out.activated = none ∧
+    (processCycleP patchCatchAny422 (ofList [1024]) false (Delays.ofList [4096, 8192]) Throttler.fresh 0
+        calls none none).out.fin = 16 ∧
+    (processCycleP patchCatch (ofList [1024]) false (Delays.ofList [4096, 8192]) Throttler.fresh 0
+        calls none none).out.activated = some 4096 ∧
+    (processCycleP patchCatch (ofList [1024]) false (Delays.ofList [4096, 8192]) Throttler.fresh 0
+        calls none none).out.fin = 16 + 4096 := by decide
+
+-- non-vacuity: the object's merge-patch answered, its /status merge-patch refused with 422: one attempt, 4 s
+example : FirstFailure (ofList [1024]) false
+    [(.mergeBody, []), (.mergeStatus, [⟨.http ⟨422, .absent, .statusJson, none, false⟩, 16⟩]), (.jsonBody, [])] 48
+    .mergeStatus .unprocessable 64 :=
+  .later _ _ _ _ _ _ _ (by decide) (by exact .here _ _ _ _ _ (by decide))
+example : ((processCyclesP patchCatch (ofList [1024]) false (Delays.ofList [4096, 8192]) Throttler.fresh
+    [(0, [(.jsonBody, [⟨.http ⟨422, .absent, .statusJson, none, false⟩, 16⟩])], none, none),
+     (100, [(.mergeBody, []), (.mergeStatus, [⟨.http ⟨422, .absent, .statusJson, none, false⟩, 16⟩])], none, none),
+     (9000, [(.mergeBody, [⟨.http ⟨404, .absent, .statusJson, none, false⟩, 16⟩]), (.mergeStatus, [])], none, none),
+     (9100, [(.mergeBody, [⟨.http ⟨503, .absent, .statusJson, none, false⟩, 16⟩,
+                           ⟨.http ⟨418, .absent, .statusJson, none, false⟩, 16⟩])], none, none)]).map
+      (fun o => (o.out.activated, o.run.map (fun r => (r.runs.length, r.ending)))))
+    = [(none, some (1, .postponed)), (some 4096, some (2, .raised .unprocessable)),
+       (none, some (1, .gone)), (some 4096, some (1, .raised .client))] := by decide
+example : verdict (.http ⟨422, .absent, .statusJson, none, false⟩) = .raise .unprocessable := by decide
 
 /-! ## `Vault` + `authenticated` + authenticator — for every label list, any number of requesters -/
 
